@@ -585,6 +585,12 @@ def rule_max_clique(F, R):
         if mm: cols.add(mm.group(1))
     # ... or, in a second pass, both components of every element of the edge list, which holds (record[0], record[1]) for every record
     Ep = [k for k, v in roles.items() if v == 'edges']
+    if Ep:
+        # every record of the input is an edge: one unconditional push of (record[0], record[1]) into the edge list, inside the loop over the records
+        psites = push_sites(t, lambda e: callee_name(e) == 'std::vec::Vec::push' and P.place(e['args'][0]) == Ep[0])
+        okr = len(psites) >= 1 and all(_re.fullmatch(r'\((.+)\[0\],(.+)\[1\]\)', NV.norm(cl_['args'][1])) and not [c_ for (c_, pol_) in cnds_ if c_['k'] != 'Let'] for (cl_, cnds_) in psites)
+        R.count('L:edge-list-pushes', len(psites)); R.obligation(okr, 'L edges from records')
+        if not okr: R.violation('max_clique_gen::main / L / edge list', 'L', 'every record of the input must be added to the edge list as (record[0], record[1]), unconditionally (found %d insertion(s))' % len(psites), t['span']['loc'])
     if Ep and not cols:
         pushed = [NV.norm(x['args'][1]) for x in walk(t['body']) if x['k'] == 'Call' and callee_name(x) == 'std::vec::Vec::push' and P.place(x['args'][0]) == Ep[0]]
         whole = bool(pushed) and all(_re.fullmatch(r'\((.+)\[0\],(.+)\[1\]\)', q_) and _re.fullmatch(r'\((.+)\[0\],(.+)\[1\]\)', q_).group(1) == _re.fullmatch(r'\((.+)\[0\],(.+)\[1\]\)', q_).group(2) for q_ in pushed)
